@@ -146,5 +146,23 @@ func GenOverdraftProgram(t *rapid.T) *Program {
 		}
 		p.Stmts = append(p.Stmts, st)
 	}
+	// a `save` on the hot account somewhere in the script (a third of the programs): what is put aside is out of
+	// reach of the later sends, and putting aside never makes room for more overdraft
+	if rapid.IntRange(0, 2).Draw(t, "withSave") == 0 {
+		sv := Stmt{Kind: StSave, Asset: asset, Acc: lit(hot)}
+		switch rapid.IntRange(0, 3).Draw(t, "saveShape") {
+		case 0:
+			sv.All = true
+			sv.AssetText = asset
+		case 1:
+			v := int64(rapid.IntRange(0, 60).Draw(t, "saved"))
+			sv.Mon = Mon{Text: g.newVar("monetary", fmt.Sprintf("%s %d", asset, v), ""), Asset: asset, Amount: big.NewInt(v)}
+		default:
+			sv.Mon = mon(int64(rapid.IntRange(0, 60).Draw(t, "saved")))
+		}
+		at := rapid.IntRange(0, len(p.Stmts)-1).Draw(t, "saveAt")
+		p.Stmts = append(p.Stmts[:at:at], append([]Stmt{sv}, p.Stmts[at:]...)...)
+		p.Features["stmt:save"] = true
+	}
 	return p
 }
